@@ -1238,6 +1238,13 @@ func conv(i *interpreter, t_dst, t_src types.Type, x value) value {
 				// the text of a serialised value: opaque (may reach logs and error texts only)
 				return fmt.Sprintf("%sblob#%d%s", symMarker, b.id, symMarkerEnd)
 			}
+			if g := sigOf(x); g != nil {
+				// the text of a model signature: an identity token per Sign call (copies of
+				// one signature are equal; two separate Sign calls over equal content give
+				// different tokens where real ed25519 gives equal bytes: witnesses cross-check)
+				i.x.stub("string(signature): identity token per Sign call")
+				return fmt.Sprintf("%ssig#%d%s", symMarker, g.id, symMarkerEnd)
+			}
 			return string(concreteBytes(x, "[]byte -> string conversion"))
 
 		case types.Rune:
